@@ -320,4 +320,21 @@ PROPS = {
                  thorough=dict(checks=640, shards=16, budget_s=3400, shrink="3m")),
         ],
     ),
+    "C04": dict(
+        level="fault_enumeration",
+        needs_receptor=True,
+        text="Fault injection over crash points: generated histories of local and remote submissions in 1-3 daemon incarnations, each killed with SIGKILL at the n-th passage of a named point "
+             "(hook inserted between the file-system steps of creating a unit, storing its input, rewriting the status record in daemon and runner, and the remote start) or at a drawn instant; "
+             "what submitters were told is journalled with fsync, and a final incarnation on the same data directory is judged against it (identity, remote binding, final state/size, exact "
+             "output, completion of running commands, never-started => failed, no blocking query). The point table is sampled by rapid in both tiers (quick: few dozen cases; thorough: hundreds).",
+        note="Trusted: hook H1 (verifCrashPoint, tag verif), the fsync'ed journal of the harness. The daemon under test is hosted in the executor process (same packages as the receptor binary); "
+             "runner processes and the remote daemon are the real binary. Units whose runner itself was killed are unconstrained for completion.",
+        technique="fault-injection property testing (rapid): generated submission histories x crash-point table x kill instants, judged against a journal of acknowledged facts",
+        assumptions=["the kill is SIGKILL of the whole daemon process; power loss (un-synced pages) is not modelled"],
+        parts=[
+            part("crash", "workprops", "TestC04", "C04.driver", inproc=True,
+                 quick=dict(checks=40, shards=8, budget_s=600),
+                 thorough=dict(checks=800, shards=16, budget_s=3400, shrink="3m")),
+        ],
+    ),
 }
